@@ -58,7 +58,7 @@ def run(chk, tier):
         want = some(("instant", ("date", cm.canon_base(cast(mjd, mjd_ty, "i64")), cm.EPOCH - 1), ("time", 0, tod)))
         chk.ob("VN", c, mjd_ty == "u16", "day-count parameter is %s (the ICD field is a 16-bit modified Julian date)" % mjd_ty, fn.where(), key="mjd-type")
         expect(chk, "VN", c, got, want, fn.where(), "closed form 1970-01-01 + (d-1) days + t")
-        copies[c] = (t_ty, sym.rebuild(got, {cast(mjd, mjd_ty, "i64"): P("D")}))
+        copies[c] = (t_ty, got)
     if len(copies) == 2 and len({v[0] for v in copies.values()}) == 2:
         chk.notes["get_datetime copies"] = "the two copies take their time of day in different types; each is held to the closed form on its own"
     elif len(copies) == 2:
